@@ -8,7 +8,9 @@ well-formed token sequence up to MaxLen; it checks on the model that both loops 
 ShuntingYard tree and that the tree uses every token once in order, and prints every case.  The
 harness replays every case on the real PrattParser, ConstPrattParser (N = 1..8, and once through
 pratt_precedence!) and, on infix-only tables with one associativity per level, PrecClimber.
-Random tables (<= 6 levels, <= 8 operators) and sequences (<= 40 tokens) are run on the real
+Tables in which one rule is registered twice (mode "dup": K rules in K + 1 registrations; the last
+registration is in force - spec/Pratt.tla Registered) are replayed on PrattParser and ConstPrattParser,
+which must agree with each other.  Random tables (<= 6 levels, <= 8 operators) and sequences (<= 40 tokens) are run on the real
 parsers and validated by TLC against ShuntingYard (Trace_Pratt)."""
 import json
 import os
@@ -53,7 +55,7 @@ def run(ctx):
                        "well-formed sequence up to %d tokens (TLC), the pratt_precedence! table x sequences up to 7 tokens, and seeded random tables "
                        "and sequences up to 40 tokens. Non-trivial = the sequence contains at least two operators; distinct = distinct cases." % (k, levels, maxlen))
     total = 0
-    for (mode, kk, ll, ml, ns) in [("all", k, levels, maxlen, nsh), ("macro", 4, 3, 7, 4)]:
+    for (mode, kk, ll, ml, ns) in [("all", k, levels, maxlen, nsh), ("macro", 4, 3, 7, 4), ("dup", 2, 2, 5, 4) if quick else ("dup", 3, 2, 5, 16)]:
         cases, rs, n = gen(ctx, kk, ll, ml, ns, mode)
         model_bad = [r.violated for r in rs if not r.ok]
         for r in rs:
@@ -67,7 +69,11 @@ def run(ctx):
         total += rep["cases"]
         ctx.cov["engines"].append({"name": "MC_Pratt (%s, K=%d, levels=%d, len<=%d)" % (mode, kk, ll, ml),
                                    "role": "T10 on the model + replay on PrattParser/ConstPrattParser/PrecClimber",
-                                   "cases": rep["cases"], "climber_cases": rep["climber_cases"], "macro_cases": rep["macro_cases"]})
+                                   "cases": rep["cases"], "climber_cases": rep["climber_cases"], "macro_cases": rep["macro_cases"],
+                                   "repeated_registration_cases": rep["dup_cases"]})
+        if rep["dup_joint_departures"]:
+            ctx.notes.append("model_drift: on %d cases with a rule registered twice PrattParser and ConstPrattParser agree with each other "
+                             "but not with the last-registration-wins reading of spec/Pratt.tla" % rep["dup_joint_departures"])
         for m in rep["mismatches"]:
             d = {"kind": "replay", "spec": "ShuntingYard"}
             d.update(m)
@@ -110,7 +116,7 @@ def replay(ctx, path):
     vh = cargo_build()
     body = json.load(open(path))
     cf = os.path.join(ctx.work, "c.ndjson")
-    rec = {"table": body["table"], "toks": body["toks"], "tree": body.get("expected"),
+    rec = {"table": body["table"], "toks": body["toks"], "tree": body.get("expected"), "regs": body.get("regs"),
            "climber": all(e["affix"] in ("inl", "inr") for e in body["table"]) and body.get("parser") == "PrecClimber"}
     open(cf, "w").write(json.dumps(rec) + "\n")
     rep = run_json([vh, "pratt-replay", "--cases", cf])
